@@ -19,6 +19,7 @@
 (*   rule) of the run   <<8,i>> Execute into a PolyTree   <<9,0>> Clear                     *)
 (* Kind "off" (ClipperOffset): <<1,g>> AddPaths(group g)  <<2,d>> Execute(delta d)          *)
 (*   <<3,d>> Execute(delta d, tree)  <<4,0>> Clear  <<5,b>> ReverseSolution(b)              *)
+(*   <<6,t>> ArcTolerance(t-th value)                                                       *)
 (* Kind "rc" (RectClip64): <<1,p>> Execute(path set p)                                      *)
 EXTENDS Integers, Sequences, FiniteSets, TLC, Json
 
@@ -39,7 +40,7 @@ Ops(kind, s) ==
                        \cup {<<5, 0>>, <<5, 1>>, <<6, 0>>, <<6, 1>>}
                        \cup {<<7, i>> : i \in 1..K} \cup {<<8, i>> : i \in 1..K} \cup {<<9, 0>>}
     [] kind = "off" -> {<<1, g>> : g \in 1..G} \cup {<<2, d>> : d \in 1..K} \cup {<<3, d>> : d \in 1..K}
-                       \cup {<<4, 0>>, <<5, 0>>, <<5, 1>>}
+                       \cup {<<4, 0>>, <<5, 0>>, <<5, 1>>, <<6, 1>>, <<6, 2>>}
     [] kind = "rc"  -> {<<1, p>> : p \in 1..G}
 
 IsExec(kind, op) == CASE kind = "c64" -> op[1] \in {7, 8}
@@ -56,6 +57,7 @@ Apply(kind, s, op) ==
   ELSE IF kind = "c64" /\ op[1] = 5 THEN [s EXCEPT !.pc = op[2]]
   ELSE IF kind = "c64" /\ op[1] = 6 THEN [s EXCEPT !.rs = op[2]]
   ELSE IF kind = "off" /\ op[1] = 5 THEN [s EXCEPT !.rs = op[2]]
+  ELSE IF kind = "off" /\ op[1] = 6 THEN [s EXCEPT !.pc = op[2]]      \* ArcTolerance(t): for ClipperOffset the pc field holds the arc-tolerance choice (0 = default)
   ELSE s                                                    \* Execute changes nothing the object holds
 
 (* history entries: <<opcode, arg>> and, for an Execute, the abstract state it must be a function of *)
@@ -79,12 +81,12 @@ LastArg(code, dflt) == LET i == LastIdx(LAMBDA op : op[1] = code) IN IF i = 0 TH
 StateIsFunctionOfHolding ==
   /\ st.adds = HeldAdds
   /\ (Kind = "c64" => st.pc = LastArg(5, 1) /\ st.rs = LastArg(6, 0))
-  /\ (Kind = "off" => st.rs = LastArg(5, 0))
+  /\ (Kind = "off" => st.rs = LastArg(5, 0) /\ st.pc = LastArg(6, 0))
 (* an Execute entry records exactly the state before AND after it *)
 ExecIsPure == \A i \in 1..Len(h) : Len(h[i]) = 5 =>
                  LET before == IF i = 1 THEN InitState(Kind).adds ELSE h[i][3] IN h[i][3] = before
 ReuseOnce == Kind = "c64" => Cardinality({i \in 1..Len(st.adds) : st.adds[i] = <<4, 5>>}) <= 1
-TypeOK == /\ st.pc \in {0, 1} /\ st.rs \in {0, 1} /\ Len(h) <= N
+TypeOK == /\ st.pc \in {0, 1, 2} /\ st.rs \in {0, 1} /\ Len(h) <= N
           /\ \A i \in 1..Len(st.adds) : IsAdd(Kind, st.adds[i])
 ExecPureAction == [][\A op \in Ops(Kind, st) : (IsExec(Kind, op) /\ Step(op)) => st' = st]_vars
 
